@@ -2,7 +2,7 @@
    (Order-independence of the rendered result and "each effect once" are additionally checked on the
    implementation by re-rendering with permuted control attributes and by call counters.) *)
 From Coq Require Import Sorting.Sorted.
-From Tpl Require Import Html.Exec Proofs.ExecSpec Proofs.SortProps Proofs.FragmentProps Proofs.FactsAgree Proofs.OrderIrrelevant Proofs.Compose.
+From Tpl Require Import Html.Exec Proofs.ExecSpec Proofs.SortProps Proofs.FragmentProps Proofs.FactsAgree Proofs.OrderIrrelevant Proofs.Compose Proofs.RemoveModes Proofs.RenderPlain.
 Open Scope N_scope.
 
 (* Tag.SortedAttr is a permutation, sorted by the documented key, and STABLE: attributes with the same
@@ -72,7 +72,56 @@ Theorem each_effect_once_one_title : forall is_space to_lower is_letter is_udigi
   exec_node is_space to_lower is_letter is_udigit methods call_fn mgr (S (S (S f))) 0 ctx n sc top t st =
   spec_one is_space is_letter is_udigit methods call_fn mgr ctx n tok w c x av a ta sc top t st.
 Proof. exact Compose.compose_one_title. Qed.
+
+(* "The remove modes (all, body, tag, all-but-first) ... drop exactly the parts they name ... and no directive attribute
+   ever appears in the output": an element whose only directive is remove="MODE" / 'MODE' (any plain attributes, any
+   directive-free children), rendered by the real renderer at any mask, in any context:
+     all            nothing;
+     body           the open tag without the directive, the end tag, no child rendered;
+     tag            the children only;
+     all-but-first  open tag, then [abf_spec]: the first child if it is blank text and a tag child exists, the first tag
+                    child, the last child if it is blank text; end tag;
+     anything else  as if the attribute were absent.
+   [open_tag] = print_tag of the token without prefixed attributes (open_tag_no_directive). *)
+Theorem remove_all : forall is_space to_lower is_letter is_udigit methods call_fn mgr fuel mask ctx n tok r sc top t st,
+  remove_only to_lower mgr n tok r -> is_mode r s_all -> RenderPlain.wok top st ->
+  exec_node is_space to_lower is_letter is_udigit methods call_fn mgr (S fuel) mask ctx n sc top t st = ([], ROk, t, st).
+Proof. exact RemoveModes.remove_all_plain. Qed.
+Theorem remove_body : forall is_space to_lower is_letter is_udigit methods call_fn mgr fuel mask ctx n tok r sc top t st,
+  remove_only to_lower mgr n tok r -> is_mode r s_body -> RenderPlain.wok top st ->
+  exec_node is_space to_lower is_letter is_udigit methods call_fn mgr (S fuel) mask ctx n sc top t st
+    = (open_tag mgr d_remove tok ++ end_text n, ROk, t, st).
+Proof. exact RemoveModes.remove_body_plain. Qed.
+Theorem remove_tag : forall is_space to_lower is_letter is_udigit methods call_fn mgr fuel mask ctx n tok r sc top t st,
+  remove_only to_lower mgr n tok r -> is_mode r s_tag -> RenderPlain.wok top st ->
+  RemoveModes.plain_children is_space to_lower mgr n fuel ->
+  exec_node is_space to_lower is_letter is_udigit methods call_fn mgr (S fuel) mask ctx n sc top t st
+    = (flat_map print_plain (n_children n), ROk, t, st).
+Proof. exact RemoveModes.remove_tag_plain. Qed.
+Theorem remove_all_but_first : forall is_space to_lower is_letter is_udigit methods call_fn mgr fuel mask ctx n tok r sc top t st,
+  remove_only to_lower mgr n tok r -> is_mode r s_abf -> RenderPlain.wok top st ->
+  RemoveModes.plain_children is_space to_lower mgr n fuel ->
+  exec_node is_space to_lower is_letter is_udigit methods call_fn mgr (S fuel) mask ctx n sc top t st
+    = (open_tag mgr d_remove tok ++ flat_map print_plain (abf_spec is_space (n_children n)) ++ end_text n, ROk, t, st).
+Proof. exact RemoveModes.remove_abf_plain. Qed.
+Theorem remove_other_value_as_absent : forall is_space to_lower is_letter is_udigit methods call_fn mgr fuel mask ctx n tok r sc top t st,
+  remove_only to_lower mgr n tok r -> other_mode r -> RenderPlain.wok top st ->
+  RemoveModes.plain_children is_space to_lower mgr n fuel ->
+  exec_node is_space to_lower is_letter is_udigit methods call_fn mgr (S fuel) mask ctx n sc top t st
+    = (print_plain (Node (n_id n) (Some (stripped mgr d_remove tok)) (n_children n) (n_end n)), ROk, t, st).
+Proof. exact RemoveModes.remove_other_as_absent. Qed.
+Theorem printed_open_tag_has_no_directive : forall mgr d tok,
+  open_tag mgr d tok = print_tag (stripped mgr d tok) /\
+  (forall a, In a (t_attrs (stripped mgr d tok)) -> prefixb (m_attr_prefix mgr) (a_name a) = false) /\
+  (forall a, In a (t_attrs (stripped mgr d tok)) -> In a (t_attrs tok)).
+Proof. exact RemoveModes.open_tag_no_directive. Qed.
 Print Assumptions sorted_perm.
+Print Assumptions remove_all.
+Print Assumptions remove_body.
+Print Assumptions remove_tag.
+Print Assumptions remove_all_but_first.
+Print Assumptions remove_other_value_as_absent.
+Print Assumptions printed_open_tag_has_no_directive.
 Print Assumptions each_effect_once.
 Print Assumptions each_effect_once_one_title.
 Print Assumptions sorted_order_irrelevant.
